@@ -209,7 +209,7 @@ PROPS["C06"] = dict(
 
 PROPS["C05"] = dict(
     units=["xbin_load", "bin_load", "xbin_save", "idf_load", "idf_save", "tnd_load", "tnd_save", "sauce", "buf_sauce", "buf_new", "palette"],
-    kani_quick=["c18_attr_byte_roundtrip", "c18_attr_tuple_roundtrip"],
+    kani_quick=["c18_attr_byte_roundtrip", "c18_attr_tuple_roundtrip", "c05_from_u8_fields"],
     trusted_base=LOADER_TRUST + [
         "Buffer::new: assumed (stub vx_buffer_new) to hold exactly one layer built by Layer::new(size); that Layer::new gives an unlocked visible layer pre-filled with `height` rows of `width` invisible cells is proved in unit buf_new (modulo derive(Default) and Vec::resize), Line::create in unit term_core",
         "Buffer::set_sauce is used by the loader units through the stub vx_set_sauce whose clauses are proved for the real function in unit buf_sauce; Palette::from_63 assignment, BitFont::create_8 / set_font / clear_font_table are opaque statements (O1) with the contracts stated in the units",
